@@ -84,14 +84,51 @@ def check_case(case, ctx):
     return {"nontrivial": n_mut >= 3 and n_struct >= 1, "classes": sorted(classes)}
 
 
+
+# three fixed base models for the pair enumerations (pathway with a reversible step and rules; sparse with an empty
+# reaction and a duplicate column; one with groups)
+def _m(i):
+    return {"id": f"M{i}", "compartment": "c", "formula": None, "charge": None, "name": "", "notes": {}, "annotation": {}}
+
+
+def _r(i, mets, lb, ub, gpr=None):
+    return {"id": f"R{i}", "mets": mets, "lb": lb, "ub": ub, "gpr": gpr, "subsystem": "", "name": "", "notes": {}, "annotation": {}}
+
+
+ENUM_SPECS = [
+    {"id": "m", "name": None, "family": "pathway", "mets": [_m(0), _m(1), _m(2)],
+     "rxns": [_r(0, {"M0": -1}, -10, 0), _r(1, {"M0": -1, "M1": 1}, 0, 1000, ["and", "g0", "g1"]), _r(2, {"M1": -1, "M2": 2}, -1000, 1000, ["or", "g1", "g2"]),
+              _r(3, {"M2": -1}, 0, 1000, "g0"), _r(4, {"M0": -1, "M2": 1}, 0, 5)],
+     "genes": [{"id": g, "name": "", "notes": {}, "annotation": {}} for g in ("g0", "g1", "g2")],
+     "objective": {"R3": 1}, "direction": "max",
+     "groups": [{"id": "grp0", "name": "", "kind": "collection", "members": [["r", "R1"], ["m", "M1"], ["g", "g0"]], "notes": {}, "annotation": {}}],
+     "compartments": {}, "solver": "glpk", "cons": [], "notes": {}, "annotation": {}},
+    {"id": "m", "name": None, "family": "sparse", "mets": [_m(0), _m(1)],
+     "rxns": [_r(0, {"M0": 1}, 0, 10), _r(1, {"M0": -2, "M1": 1}, 0, 1000), _r(2, {"M1": -1}, -5, 1000), _r(3, {}, 0, 1000), _r(4, {"M0": -2, "M1": 1}, 0, 1000, "g0")],
+     "genes": [{"id": "g0", "name": "", "notes": {}, "annotation": {}}],
+     "objective": {"R2": 1, "R0": -0.5}, "direction": "min", "groups": [], "compartments": {}, "solver": "glpk_exact", "cons": [], "notes": {}, "annotation": {}},
+]
+
+
+def enum_phase(ctx):
+    names = [n for n in ops.OPS if n not in ("helper", "enter", "exit", "tolerance", "inplace_meta", "optimize", "repair")]
+    prefix = [{"op": "add_cons", "name": 0, "rxns": [1], "coefs": [1, 1], "b": (None, 5)}, {"op": "add_var", "name": 0, "b": (0, 10), "kind": "continuous"}]
+    cases_ = (c for k, c in enumerate(ops.pair_cases(1, ENUM_SPECS, names, in_block=False, per_name=ctx.params["per_name"], prefix=prefix))
+              if k % ctx.n_shards == ctx.shard)
+    done = ctx.run_enumeration(cases_, check_case, "history")
+    ctx.exhaustive = bool(done)
+
+
 def hyp_phase(ctx):
     ctx.run_hypothesis(case_strategy(ctx.params["max_ops"]), check_case, "history", ctx.params["max_examples"])
 
 
 def phases(tier):
     if tier == "quick":
-        return [Phase("hyp", hyp_phase, shards=8, params={"max_examples": 500, "max_ops": 30, "budget_s": 75, "crash_journal": True})]
-    return [Phase("hyp", hyp_phase, shards=16, params={"max_examples": 1500, "max_ops": 50, "budget_s": 540, "crash_journal": True})]
+        return [Phase("hyp", hyp_phase, shards=8, params={"max_examples": 500, "max_ops": 30, "budget_s": 75, "crash_journal": True}),
+                Phase("pairs", enum_phase, shards=8, params={"per_name": 2, "budget_s": 75, "crash_journal": True})]
+    return [Phase("hyp", hyp_phase, shards=16, params={"max_examples": 1200, "max_ops": 50, "budget_s": 400, "crash_journal": True}),
+            Phase("pairs", enum_phase, shards=16, params={"per_name": 3, "budget_s": 300, "crash_journal": True})]
 
 
 CHECKS = {"history": check_case}
